@@ -5,7 +5,7 @@ Ties between the Python bodies of `morph.py` (regenerated on every run into `Gen
 The generated definitions are compositions over an abstract structure of primitives; `c02Prims dt` instantiates
 every primitive with the model kernel the driver uses for it. Each theorem holds for ALL arguments.
 -/
-import Mahotas.Generated.PyBodies
+import Mahotas.Generated.PyBodiesC02
 import Mahotas.Model.C02
 
 namespace Mahotas
